@@ -3,9 +3,9 @@
 package leaderx
 
 import (
-	time2 "github.com/oxia-db/oxia/common/time"
 	"context"
 	"fmt"
+	time2 "github.com/oxia-db/oxia/common/time"
 	"io"
 	"os"
 	"path/filepath"
@@ -252,13 +252,13 @@ type node struct {
 	// walClock != nil: the WAL uses this clock and walRetention, and trims only when told to
 	walClock     time2.Clock
 	walRetention time.Duration
-	dir     string
-	walF    *hookWalFactory
-	kvF     *hookKVFactory
-	lc      server.LeaderController
-	term    int64
-	segSize int32
-	rpc     server.ReplicationRpcProvider
+	dir          string
+	walF         *hookWalFactory
+	kvF          *hookKVFactory
+	lc           server.LeaderController
+	term         int64
+	segSize      int32
+	rpc          server.ReplicationRpcProvider
 }
 
 const shardId = int64(1)
@@ -404,7 +404,6 @@ func dumpKV(k kv.KV) ([]rawKV, error) {
 }
 
 var _ = io.EOF
-
 
 // ReadAllEntries reads every synced entry of the WAL.
 func (w *hookWal) ReadAllEntries() ([]*proto.LogEntry, error) {
